@@ -17,8 +17,8 @@ constructors build:
                   else nothing.
 -/
 import TraitsVerif.Model.FastValidate
-namespace TraitsVerif.Model
-open TraitsVerif TraitsVerif.Py
+namespace TraitsVerif.Model.Val
+open TraitsVerif TraitsVerif.Py.Value
 
 inductive TraitType where
   | any                                                   -- Any: no validator
@@ -54,7 +54,7 @@ inductive TraitType where
   deriving Repr, Inhabited
 
 /-- `trait_base.TypeTypes` (trait_base.py:31-40). -/
-def _root_.TraitsVerif.Py.Ty.isTypeType : Ty → Bool
+def _root_.TraitsVerif.Py.Value.Ty.isTypeType : Ty → Bool
   | .str | .int | .float | .complex | .list | .tuple | .dict | .bool => true
   | _ => false
 
@@ -498,4 +498,4 @@ def ctraitValidate (t : TraitType) (v : Val) : Res :=
 /-- What assignment validates with: the CTrait's validator. -/
 abbrev validate (tt : TraitType) (v : Val) : Res := ctraitValidate E tt v
 
-end TraitsVerif.Model
+end TraitsVerif.Model.Val
